@@ -62,4 +62,27 @@ CLAIMS.update({
                 note=_TB),
 })
 
+CLAIMS.update({
+    'C04': dict(engine='TLC+jsv', design_ref='DESIGN.md section 6 (C04), 4.5',
+                technique='TLA+ printer specification composed with the parser specification (ParseOfPrint, OnlyWhitespaceDiffers checked by TLC over values x option records); every pair replayed; recorded random prints validated by TracePrinter',
+                text='MC_Printer checks for every bounded value x option record that the specified text parses back (with the specified parser) to the value; the harness prints each pair with the real printer and re-parses with the real strict parser; random values x random option records are recorded and TLC validates that the recorded text denotes the value.',
+                note=_TB + 'Bounded: 36 value shapes x 221 (quick) / 1500 (thorough) option records; random values use every numeric field 0..3, all indent units and Limit variants.'),
+    'C08': dict(engine='TLC+jsv', design_ref='DESIGN.md section 6 (C08)',
+                technique='CompactMinimal invariant; compact_print / Display / to_string / String::from compared byte-for-byte with the specified compact text; exhaustive run-compressed sweep of every scalar as a one-character string and key validated by TraceSweep',
+                text='The compact text is specified in JsonPrinter.tla (RFC 8785 escaping); TLC checks it has no whitespace outside strings; the four compact entry points must produce it for every bounded value; every Unicode scalar is printed as a one-character string and key by the real code and the run-compressed result validated against the specification.',
+                note=_TB + 'Quick tier evaluates the specification on run end points, 33 interior points and all interesting points (ASCII/Latin-1, encoding and surrogate boundaries); thorough on every element.'),
+    'C11': dict(engine='TLC+jsv', design_ref='DESIGN.md section 6 (C11), 4.9',
+                technique='CodeMapNav.tla gives the pre-order offsets of every item / entry / key / value and the conversion error offsets; TLC prints them for every accepted document of the parser trees and every small document x 15 type shapes; the harness compares every navigation API',
+                text='For every accepted document of the structure / token / nesting trees the specification gives the offsets the mapped iterators and key lookups must yield, get_fragment results for 0..n+2, volume and counts; for every small document x type shape the offset / found kind / expected kind of the first kind mismatch. All compared with the real API, and every returned offset must designate the element source text.',
+                note=_TB),
+    'C13': dict(engine='TLC+jsv', design_ref='DESIGN.md section 6 (C13), 4.5',
+                technique='layout specification from the option documentation evaluated by TLC; byte-for-byte comparison with the real printer for every value x option record; recorded random prints validated by TracePrinter',
+                text='JsonPrinter.tla defines one-line / expanded layout from the rustdoc (limits on the characters actually printed, dedicated empty spacing); the real printer must produce exactly that text for every enumerated pair and every recorded random pair.',
+                note=_TB),
+    'C15': dict(engine='TLC+jsv', design_ref='DESIGN.md section 6 (C15), 4.2',
+                technique='declarative UnorderedEq (bijection between entries) checked equal to MultisetEq, symmetric, implied by =; all pairs of small objects replayed; recorded shuffles / mutations validated by TraceUnordered',
+                text='TLC enumerates all pairs of small objects (plain and nested) with the declarative relation; the four real entry points must agree in both argument orders; random large values with deep shuffles (must hold) and single mutations incl. multiplicity changes (must not) are validated by TLC.',
+                note=_TB),
+})
+
 NOT_CLAIMED = {}
